@@ -29,7 +29,7 @@ def translate(ctx):
     import cwrap2lean
     try:
         t = cwrap2lean.gen_blas_safety()
-        cwrap2lean.gen_blas_driver(t)
+        cwrap2lean.gen_blas_driver(t); cwrap2lean.gen_blas_foot(t)
         ctx.table = t
     except Exception as e:
         return ['cwrap2lean: %s: %s' % (type(e).__name__, e)]
@@ -295,6 +295,7 @@ def kernel_probes(ctx, rng):
     evals += c19_lapack.embed_probes(ctx, rng, gb, 'C19')
     from corr import c19_base
     evals += c19_base.base_probes(ctx, rng, gb, 'C19')
+    evals += c19_base.ctor_probes(ctx, rng, gb, 'C19')
     return evals
 
 def index_probes(ctx, rng, gb):
@@ -331,5 +332,85 @@ def index_probes(ctx, rng, gb):
         w.close()
     return evals
 
-def search(ctx, why): return
+def search(ctx, why):
+    """A safety theorem (or the translation) no longer checks: look for a call that the translated checks accept although the footprint
+    specification fails (both evaluated by the generated Lean functions), and run it on the real wrappers under exact guard pages."""
+    import re, cwrap2lean
+    from corr import c19_lapack
+    text = json.dumps(why)
+    broken = set(re.findall(r'C19Safe(L?)_(\w+?)\b', text))
+    rng = random.Random(ctx.seed * 7919 + 19)
+    gb = vlib.build_repo(guard=True)
+    found = 0
+    ctx.cov['search'] = {'routines': sorted('%s.%s' % ('lapack' if L else 'blas', n) for L, n in broken)}
+    # ---- LAPACK
+    lap = sorted(n for L, n in broken if L)
+    if lap:
+        try:
+            table = cwrap2lean.gen_lapack(); cwrap2lean.gen_lapack_driver(table); cwrap2lean.gen_lapack_foot(table)
+        except Exception as e:
+            ctx.cov['search']['lapack'] = 'translation failed: %s' % e; table = []
+        sigs = c19_lapack.signatures(); byname = {r['name']: r for r in table}
+        for name in lap:
+            if name not in byname or name not in sigs: continue
+            r, sig = byname[name], sigs[name]
+            lines, cases = [], []
+            for it in range(20000 if ctx.quick() else 200000):
+                case = c19_lapack.gen_case(rng, name, sig, 6 * 10**6 + it)
+                env = c19_lapack.model_env(r, sig, case)
+                try: ideal = cwrap2lean.eval_stmts(r['stmts'], dict(env), cint=False)
+                except (ZeroDivisionError, KeyError): continue
+                if ideal[0] != 'call': continue
+                lines.append(c19_lapack.line_of(r, env).replace('lapack ', 'foot ', 1)); cases.append(case)
+                if len(lines) >= 4000: break
+            out = vlib.drive('C19L', lines) if lines else []
+            bad = [c for c, o in zip(cases, out) if o == 'foot false']
+            ctx.cov['search'][name] = {'accepted_calls_examined': len(lines), 'footprint_violations': len(bad)}
+            if not bad: continue
+            bad.sort(key=lambda c: len(json.dumps(c)))
+            w = c19_lapack.Worker(gb, '0'); res = 'not-run'
+            for c in bad[:40]:
+                res = w.run(c)
+                if res.startswith('crash') or res == 'worker-died': bad = [c]; break
+            w.close()
+            c = bad[0]; found += 1
+            ctx.violation('c19:accepted-call-leaves-buffer:lapack.' + name, '%s passes the argument checks although the footprint of the LAPACK routine leaves the buffers '
+                          '(theorem C19_safe_lapack_%s no longer checks); on the guard-page build the call gives: %s' % (c19_lapack.show(c), name, res), c)
+    # ---- BLAS
+    bl = sorted(n for L, n in broken if not L)
+    if bl:
+        try:
+            table = cwrap2lean.gen_blas(); cwrap2lean.gen_blas_driver(table); cwrap2lean.gen_blas_foot(table)
+        except Exception as e:
+            ctx.cov['search']['blas'] = 'translation failed: %s' % e; table = []
+        src = cwrap2lean.strip_pp(open(os.path.join(vlib.REPO, 'src', 'C', 'blas.c')).read())
+        for r in table:
+            if r['name'] not in bl: continue
+            m = re.search(r'static PyObject\s*\*\s*%s\s*\(.*?PyArg_ParseTupleAndKeywords\(args, kwrds,\s*"[^"]*",\s*kwlist,(.*?)\)\)' % r['name'], src, flags=re.S)
+            cvars = [v.strip().lstrip('&') for v in m.group(1).split(',')]
+            r['kwmap'] = dict(zip(r['kwlist'], [v[:-1] if v.endswith('_') else v for v in cvars]))
+            lines, cases = [], []
+            for it in range(20000 if ctx.quick() else 200000):
+                matargs, specs, kw = gen_case(rng, r, False)
+                env = model_env(r, matargs, specs, kw)
+                try: ideal = cwrap2lean.eval_stmts(r['stmts'], dict(env), cint=False)
+                except ZeroDivisionError: continue
+                if ideal[0] != 'call': continue
+                lines.append(line_of(r, env).replace('blas ', 'foot ', 1)); cases.append({'id': 6 * 10**6 + it, 'routine': r['name'], 'mats': specs, 'matnames': matargs, 'kw': kw})
+                if len(lines) >= 4000: break
+            out = vlib.drive('C19', lines) if lines else []
+            bad = [c for c, o in zip(cases, out) if o == 'foot false']
+            ctx.cov['search'][r['name']] = {'accepted_calls_examined': len(lines), 'footprint_violations': len(bad)}
+            if not bad: continue
+            bad.sort(key=lambda c: len(json.dumps(c)))
+            w = Worker(gb); res = 'not-run'
+            for c in bad[:40]:
+                res = w.run(c)
+                if res.startswith('crash') or res == 'worker-died': bad = [c]; break
+            w.close()
+            c = bad[0]; found += 1
+            ctx.violation('c19:accepted-call-leaves-buffer:blas.' + r['name'], 'blas.%s(%s; %s) passes the argument checks although the footprint of the BLAS routine leaves the buffers '
+                          '(theorem C19_safe_%s no longer checks); on the guard-page build the call gives: %s' % (r['name'],
+                          ', '.join('%s:%s%dx%d' % (k, sp[0], sp[1], sp[2]) for k, sp in zip(c['matnames'], c['mats'])), ', '.join('%s=%r' % kv for kv in sorted(c['kw'].items())), r['name'], res), c)
+    ctx.cov['search']['failing_inputs_found'] = found
 def replay(ctx, payload): correspond(ctx)
